@@ -185,7 +185,11 @@ func runMux(class string, server bool, script []mop, nt bool) {
 			}
 			// oracle bookkeeping
 			in, isLive := live[k]
-			if o.flags&fREQ != 0 && !isLive {
+			if o.flags&fREQ != 0 && !isLive && tubes.VerifMuxHas(m, rel, o.id) {
+				// the muxer registered a tube for this request: from now on it answers the opener's REQ with RESP,
+				// so the opener holds an open tube — which must be offered to Accept exactly once.  (A request
+				// may be refused, e.g. while 128 tubes wait to be accepted: then nothing is registered and the
+				// opener keeps asking.)
 				in = &inst{ty: byte(o.ackno >> 24), nextNo: 1}
 				live[k] = in
 				if !o.stale { // a delayed copy of a REQ that was already served opens nothing new
@@ -325,6 +329,9 @@ func runMux(class string, server bool, script []mop, nt bool) {
 			}
 		}
 	}
+	if class == "mux-accept-queue-full" && len(expectQueue) > 0 {
+		fail("C09:remote-tube-not-offered", fmt.Sprintf("%d tubes opened by the peer are registered in the muxer (they answer the opener) but were never offered to Accept, first (rel=%v,id=%d)", len(expectQueue), expectQueue[0].rel, expectQueue[0].id))
+	}
 	d := fmt.Sprintf("mux server=%v: %s", server, strings.Join(desc, " "))
 	if len(d) > 1800 {
 		d = d[:1800] + "..."
@@ -368,6 +375,83 @@ func genWhite(r *hv.Rand) {
 		{kind: 'F', id: 3, flags: fREQ | fREL | fACK, ackno: 7 << 24, stale: true},
 		{kind: 'A'},
 	}, true)
+
+	// more remote opens than the Accept queue holds (128) before anybody accepts: the surplus requests are
+	// refused without registering anything; after the queue is drained the opener's repeated REQs succeed
+	for q := 0; q < hv.Scale(2, 6); q++ {
+		server := q%2 == 0
+		peer := byte(0) // parity of the ids the peer opens
+		if server {
+			peer = 1
+		}
+		var sc []mop
+		type pk struct {
+			k  tkey
+			ty byte
+		}
+		var opens []pk
+		nUnrel := 1 + r.Intn(7)
+		nRel := 128
+		if q%3 == 2 {
+			nRel, nUnrel = 60+r.Intn(30), 70+r.Intn(30)
+		}
+		for i := 0; i < nRel; i++ {
+			opens = append(opens, pk{tkey{true, byte(2*i) + peer}, byte(1 + r.Intn(200))})
+		}
+		for i := 0; i < nUnrel; i++ {
+			opens = append(opens, pk{tkey{false, byte(2*i) + peer}, byte(1 + r.Intn(200))})
+		}
+		// shuffle
+		for i := len(opens) - 1; i > 0; i-- {
+			j := r.Intn(i + 1)
+			opens[i], opens[j] = opens[j], opens[i]
+		}
+		req := func(p pk) mop {
+			fl := byte(fREQ)
+			if p.k.rel {
+				fl |= fREL | fACK
+			}
+			return mop{kind: 'F', id: p.k.id, flags: fl, ackno: uint32(p.ty) << 24}
+		}
+		for _, p := range opens {
+			sc = append(sc, req(p))
+		}
+		surplus := opens[128:]
+		// the opener repeats the refused requests, and (believing nothing) may even send data: all dropped
+		for _, p := range surplus {
+			sc = append(sc, req(p))
+			fl := byte(0)
+			if p.k.rel {
+				fl = fREL
+			}
+			sc = append(sc, mop{kind: 'F', id: p.k.id, flags: fl, no: 1, data: payload(p.k, 0, 1)})
+		}
+		// the application accepts a few, the opener repeats: as many as there is room for get in
+		for i := 0; i < 3; i++ {
+			sc = append(sc, mop{kind: 'A'})
+		}
+		for _, p := range surplus {
+			sc = append(sc, req(p))
+		}
+		for i := 0; i < 140; i++ {
+			sc = append(sc, mop{kind: 'A'})
+		}
+		for _, p := range surplus {
+			sc = append(sc, req(p))
+		}
+		for i := 0; i < len(surplus)+2; i++ {
+			sc = append(sc, mop{kind: 'A'})
+		}
+		// data on the late tubes and on a few early ones arrives on the right tube
+		for _, p := range append(append([]pk{}, surplus...), opens[0], opens[64], opens[127]) {
+			fl := byte(0)
+			if p.k.rel {
+				fl = fREL
+			}
+			sc = append(sc, mop{kind: 'F', id: p.k.id, flags: fl, no: 1, data: payload(p.k, 0, 1)}, mop{kind: 'R', rel: p.k.rel, id: p.k.id})
+		}
+		runMux("mux-accept-queue-full", server, sc, true)
+	}
 
 	n := hv.Scale(420, 1500)
 	for k := 0; k < n; k++ {
